@@ -42,6 +42,7 @@ import (
 	"github.com/voedger/voedger/pkg/processors"
 	"github.com/voedger/voedger/pkg/processors/actualizers"
 	commandprocessor "github.com/voedger/voedger/pkg/processors/command"
+	"github.com/voedger/voedger/pkg/sys/builtin"
 	"github.com/voedger/voedger/pkg/vvm/engines"
 )
 
@@ -159,6 +160,7 @@ func (r *rig) boot() error {
 	odoc.AddContainer("Item", kindQName[kOItem], 0, appdef.Occurs_Unbounded)
 	wsb.AddCommand(qnCmdODoc).SetParam(kindQName[kODoc])
 	wsb.AddCommand(qnCUD)
+	wsb.AddCommand(builtin.QNameCommandInit) // nolint SA1019: the one command for which the processor builds a synced event
 	wsb.AddRole(iauthnz.QNameRoleAuthenticatedUser)
 	wsb.AddRole(iauthnz.QNameRoleEveryone)
 	wsb.AddRole(iauthnz.QNameRoleSystem)
@@ -167,6 +169,7 @@ func (r *rig) boot() error {
 	cfg := cfgs.AddBuiltInAppConfig(testApp, adb)
 	cfg.SetNumAppWorkspaces(istructs.DefaultNumAppWorkspaces)
 	cfg.Resources.Add(istructsmem.NewCommandFunction(qnCUD, istructsmem.NullCommandExec))
+	cfg.Resources.Add(istructsmem.NewCommandFunction(builtin.QNameCommandInit, istructsmem.NullCommandExec)) // nolint SA1019
 	cfg.Resources.Add(istructsmem.NewCommandFunction(qnCmdODoc, istructsmem.NullCommandExec))
 	appDef, err := adb.Build()
 	if err != nil {
@@ -206,7 +209,11 @@ func (r *rig) boot() error {
 			return
 		}
 		token := strings.TrimPrefix(request.Header[httpu.Authorization], "Bearer ")
-		ch <- commandprocessor.NewCommandMessage(requestCtx, request.Body, request.AppQName, request.WSID, responder, partID, cmdQName, token, "", 0, 0, "", "")
+		apiPath := processors.APIPath_null
+		if request.Header[hdrAPIv2] != "" {
+			apiPath = processors.APIPath_Commands // same request shape, camel-cased reply re-encoded by sendResponse
+		}
+		ch <- commandprocessor.NewCommandMessage(requestCtx, request.Body, request.AppQName, request.WSID, responder, partID, cmdQName, token, "", apiPath, 0, "", "")
 	})
 	appTokens := payloads.ProvideIAppTokensFactory(tokens).New(testApp)
 	sysToken, err := payloads.GetSystemPrincipalTokenApp(appTokens)
@@ -268,11 +275,20 @@ type cmdReply struct {
 }
 
 // send posts a command to the running command processor and waits for the reply
-func (l *life) send(ws istructs.WSID, resource string, body []byte) (cmdReply, error) {
+const hdrAPIv2 = "X-Verif-APIv2"
+
+func (l *life) send(ws istructs.WSID, resource string, body []byte, apiv2 bool) (cmdReply, error) {
 	l.startProc()
 	ctx, cancel := context.WithTimeout(l.ctx, 20*time.Second)
 	defer cancel()
-	respCh, respMeta, respErr, err := l.sender.SendRequest(ctx, bus.Request{WSID: ws, AppQName: testApp, Resource: resource, Body: body, Header: l.authHdr})
+	hdr := l.authHdr
+	if apiv2 {
+		hdr = map[string]string{hdrAPIv2: "1"}
+		for k, v := range l.authHdr {
+			hdr[k] = v
+		}
+	}
+	respCh, respMeta, respErr, err := l.sender.SendRequest(ctx, bus.Request{WSID: ws, AppQName: testApp, Resource: resource, Body: body, Header: hdr})
 	if err != nil {
 		return cmdReply{}, err
 	}
